@@ -60,10 +60,11 @@ def instantiate(I, cls, args, kw):
         if hook is not None:
             return hook(I, cls, args, kw)
         obj = Obj(cls)
-        new = I._class_attr(cls, '__new__')
-        if new is not None and not isinstance(new, (staticmethod,)) and False:
-            raise OutOfFragment("__new__ on %s" % cls.__name__)
+        if hasattr(cls, '__table__') or hasattr(cls, '__mapper__'):
+            obj.meta['db'] = True          # a mapped (pie) object, not yet attached to a session
+            obj.meta['attached'] = False
         init = I._class_attr(cls, '__init__')
+        init = getattr(init, '_sa_original_init', init)     # SQLAlchemy wraps mapped classes' __init__
         if isinstance(init, types.FunctionType):
             I.call_value(_pyvc().BoundMethod(obj, init), list(args), kw)
         return obj
@@ -299,6 +300,11 @@ def _havoc_like(I, v, name, kind=None):
         return MB(SSeq('bytes', [('s', fresh(name, IntSeq))]))
     if isinstance(v, list):
         return Opaque('list', 'havoc_' + name)
+    from .sym import SDict
+    if isinstance(v, SDict):
+        return SDict(name, v.vkind, v.maker)
+    if isinstance(v, SOpt):
+        return SOpt(fresh(name + "_isnone", z3.BoolSort()), _havoc_like(I, v.v, name))
     raise OutOfFragment("cannot havoc %s of kind %s (declare havoc kind in the loop spec)"
                         % (name, type(v).__name__))
 
